@@ -224,6 +224,42 @@ def setupConfig (c : Cfg) : Except Err Cfg :=
   | .error e => .error e
   | .ok () => .ok (normalise c)
 
+
+/-! ### the two entry branches of setup_config -/
+
+/-- what the restart branch looks at in the `[current]` table and around it: `cstep`,
+    `restarted_from` (absent → −1), `simulation.steps`, and whether every active path has a
+    `traj.txt` in the load directory (an external fact, hence a parameter) -/
+structure Restart where
+  cstep : Int
+  restartedFrom : Option Int
+  steps : Int
+  pathsPresent : Bool
+deriving Repr, DecidableEq
+
+/-- `curr.get("cstep") == curr.get("restarted_from", -1) and curr.get("cstep") >= steps`:
+    the previous restart made no step and there are no steps left -/
+def Restart.finished (cur : Restart) : Bool :=
+  decide (cur.cstep = (match cur.restartedFrom with | some x => x | none => -1)) &&
+    decide (cur.cstep ≥ cur.steps)
+
+/-- `setup_config` from the parsed file on: `r = some …` when the file has a `[current]` table
+    (restart branch: may stop with `None`; `clean_data_file` only touches the data file),
+    `none` for a fresh start (the `[current]` table and the data-file header are created).
+    Both branches then run the same tail: defaults, `check_config`.  `ok none` = the function
+    returned `None` (nothing starts). -/
+def setupFile (c : Cfg) (r : Option Restart) : Except Err (Option Cfg) :=
+  let tail : Except Err (Option Cfg) :=
+    match setupConfig c with
+    | .error e => .error e
+    | .ok c' => .ok (some c')
+  match r with
+  | some cur =>
+    if cur.finished then .ok none
+    else if !cur.pathsPresent then .ok none
+    else tail
+  | none => tail
+
 /-! ### the property's predicate, executable form (proved equivalent to `Valid` in Props/C18) -/
 
 /-- every wire-fencing ensemble `k ≥ 1` (interface `k-1`, move `k`) has room below the cap:
